@@ -272,3 +272,46 @@ func carries(v ssa.Value, phi *ssa.Phi, depth int) bool {
 	}
 	return false
 }
+
+
+// gatedInvariant renders a value like Gated; a value computed before a loop and carried through
+// it unchanged (a loop-header phi all of whose in-loop edges carry the phi itself) is rendered by
+// its entry edges only. changed reports an in-loop edge that modifies it.
+func (m *Model) gatedInvariant(v ssa.Value) (got string, changed string) {
+	for {
+		if cv, ok := v.(*ssa.Convert); ok {
+			v = cv.X
+			continue
+		}
+		break
+	}
+	v = m.traceValue(v)
+	ph, ok := v.(*ssa.Phi)
+	if !ok || !inLoop(ph.Block()) {
+		return m.Gated(v), ""
+	}
+	hasEntry := false
+	for i, e := range ph.Edges {
+		if inLoopFrom(ph.Block().Preds[i], ph.Block()) {
+			if !carries(e, ph, 0) {
+				return m.Gated(v), m.Sym.Of(e).String()
+			}
+		} else {
+			hasEntry = true
+		}
+	}
+	if !hasEntry {
+		return m.Gated(v), ""
+	}
+	// single entry value: render it (it may itself be a phi computed before the loop)
+	var entries []ssa.Value
+	for i, e := range ph.Edges {
+		if !inLoopFrom(ph.Block().Preds[i], ph.Block()) {
+			entries = append(entries, e)
+		}
+	}
+	if len(entries) == 1 {
+		return m.gatedInvariant(entries[0])
+	}
+	return m.GatedEntry(ph), ""
+}
